@@ -43,4 +43,16 @@ CLAIMED = {
         'text': 'Lean theorems: inspect_iff / verify_iff (a group passes verification iff every manifest decodes completely, records at least one file and every non-empty extern has an earlier unique of its hash in the group — the right-hand side is the declarative Resolvable of C02), listing_ok_iff_no_error (the listing verdict is cleared exactly when an error-class line is logged), inspect_ok_of_resolvable (storages produced by vsb runs alone verify, given non-empty manifests — the proviso is known finding F6), age_iff / age_no_threshold (alarm iff no backup at all or newest backup at least max old; newest = last backup of the last non-empty group). Tied to the code by running the real get_backup_groups(true) on storages after every run of random histories and on 20 kinds of manifest-level corruption, against the compiled model and an independent oracle, and the real check_backups/parse_duration on an age grid around the boundary under a faked clock.',
         'note': TRUST + 'faked CLOCK_REALTIME and TZ=UTC; ASCII digits; the prefix of a partially decodable manifest is not compared (only the verdict); kill/fault histories are covered by C03. Known finding F6 (empty manifest) is listed in known-findings.json.',
     },
+    'C14': {
+        'text': 'Lean theorems about the filter/glob model: check_first_match / check_default_allow / check_nil (first matching rule in file order decides, default allow), token semantics over bytes — any_step (? = one non-/ byte), star_step (* = run without /), recPrefix_step / recZeroOrMore_step / recSuffix_step (** spans directory levels), alts_step ({a,b}), lit_whole (anchoring at both ends), doublestar_all — ruleline_blank / ruleline_comment; the walk half (archived iff every prefix allowed, root never filtered) is archived_allowed / exp_complete / exit0_complete in Props/C08. The glob parser (globset 0.4.15 incl. its ** and alternation corner cases), rule-line parsing and unescaping are modelled and tied to backuping/filter.rs by running the real PathFilter on structured and raw random rule lists (0 disagreements), an independent regex oracle for the structured grammar, and end-to-end path sets of real filtered backups.',
+        'note': TRUST + 'regex-automata implements the regex the glob is translated to; class members ASCII (byte-mode classes); the parser itself is covered by correspondence, the theorems are about token semantics and rule order.',
+    },
+    'C08': {
+        'text': 'Lean theorems about the walk model for every item list, tree and per-call outcome: error_sets_exit (exit 0 iff finish succeeded, no Err aborted the run and not a single error-class event was logged; warnings do not count), abort_publishes_nothing, exit0_complete (unless aborted, exactly the nodes readable without error and reached through readable, allowed, validly named directories are archived, in order), archived_allowed and exp_complete (walk_iff both directions, root unfiltered). Tied to backuping/backuper.rs by real vsb backup runs on generated trees (files, dirs, symlinks, fifos, sockets, CR and non-UTF-8 names, missing/file/fifo/overlapping items, filters, hooks) with injected per-path failures of lstat/open/fstat/opendir/readdir/readlink and of fsync in finish, compared with the compiled model event-by-class and path-by-path.',
+        'note': TRUST + 'faults injected at the libc boundary by the LD_PRELOAD interposer; mid-run archive write failures are covered by the theorem and the fsync-in-finish scenario only; vsb never mutates sources: type-level in the model, interposer traces in C15.',
+    },
+    'C19': {
+        'text': 'Lean theorems: hooks_bracket (the trace of every run is a sequence of brackets before-events ++ hook-free body ++ after-events, one per reached item in configuration order; an aborting item still gets its after hook and later items contribute nothing), noHook_itemBody, hook_once, hook_failure_reported. Tied to the code by runs whose before hook creates a file inside its item and whose after hook removes one, so the archive itself shows that the item was read strictly between them, over hook/item combinations incl. failing hooks, missing/overlapping/unreadable items.',
+        'note': TRUST + 'hooks run through bash -c; a hook that cannot be started is represented by a failing one.',
+    },
 }
